@@ -214,7 +214,13 @@ class Binder:
         if isinstance(st, (ast.FunctionDef, ast.AsyncFunctionDef)):
             labels, overload = self.dec_info(scope, st)
             if overload is None:
+                # a decorator name cannot be resolved from the text alone: kind (function / property attribute / overload
+                # stub) is open; record both possible bindings and leave presence open
                 scope.tainted.add(st.name)
+                for kind in ("function", "attribute"):
+                    scope.history.setdefault(st.name, []).append(
+                        Cand(st.name, kind, st, "either", guarded, doc=literal_doc(st.body), labels=None, is_async=isinstance(st, ast.AsyncFunctionDef), nest=len(path))
+                    )
                 return
             if overload:
                 return
